@@ -70,8 +70,11 @@ func dispatch(what, tier string, seed uint64, replay string) int {
 	}
 	a := buildArtefacts()
 	switch what {
-	case "C19":
+	case "C19", "C12":
 		lc := c19Check()
+		if what == "C12" {
+			lc = c12Check()
+		}
 		if replay != "" {
 			return lc.replayCmd(a, replay)
 		}
